@@ -316,6 +316,7 @@ def run_job(job):
     """Worker entry: one (contract, case)."""
     modname, clsname, case, tier, seed = job
     t_start = time.time()
+    cpu_start = time.process_time()  # budgets are counted in CPU seconds of this worker: a loaded machine must not turn a job undecided
     res = {
         "contract": f"{modname}.{clsname}",
         "case": None,
@@ -355,11 +356,11 @@ def run_job(job):
         for pi, p in enumerate(paths):
             S, inp, out = p.value
             rebound |= p.ghost.get("_rebound", set())
-            if time.time() - t_start > job_budget:
+            if time.process_time() - cpu_start > job_budget:
                 res["budget_exhausted"] = True
                 if res["status"] == "ok" and not res["violations"]:
                     res["status"] = "undecided"
-                    res["error"] = f"job wall budget of {job_budget:.0f}s exhausted after {pi} of {len(paths)} paths"
+                    res["error"] = f"job CPU budget of {job_budget:.0f}s exhausted after {pi} of {len(paths)} paths"
                 break
             res["nonzero_assumptions"] += len(p.nonzero)
             post = PostCtx(p.pc)
@@ -446,7 +447,7 @@ def run_job(job):
                     strength = default_strength
                 n_obl += 1
                 full = f"{contract.prop}.{contract.name}.{oname}"
-                if full in refuted_names or (res["violations"] and time.time() - t_start > job_budget / 3):
+                if full in refuted_names or (res["violations"] and time.process_time() - cpu_start > job_budget / 3):
                     # already refuted in this job (or the job is failing and has used a third of its budget):
                     # further instances are not re-decided, they are reported as skipped
                     res["obligations"].append({"name": full, "case": cid, "path": pi, "status": "skipped", "backend": "-", "time_s": 0.0, "strength": strength, "reason": "job already has a refuted obligation"})
